@@ -383,6 +383,8 @@ static int drv_stats(int argc, char** argv) {
             } else if (o == "creset") {
               Oomd::StatsClient cl(sock);
               rec["res"] = cl.resetStats();
+            } else if (o == "sleep_us") {
+              usleep(op["us"].asInt());
             } else if (o == "raw") {
               // raw protocol client: send bytes, optional behaviours
               int fd = raw_connect(sock);
@@ -464,6 +466,14 @@ static int drv_stats(int argc, char** argv) {
                         }
                       }
                       b["other_keys"] = (Json::UInt64)(body.size() - nb);
+                      // the few non-bulk counters are carried along: they take part in the linearizability check
+                      Json::Value other(Json::objectValue);
+                      for (const auto& k : body.getMemberNames()) {
+                        if (k.rfind("bulk.", 0) != 0 && other.size() < 16) {
+                          other[k] = body[k];
+                        }
+                      }
+                      b["other"] = other;
                     }
                     b["bulk_keys"] = nb;
                     b["bulk_bad"] = bad;
